@@ -100,6 +100,16 @@ func newReadWriteSegment(basePath string, baseOffset int64, segmentSize uint32, 
 		ms.currentFileOffset, ms.c.baseOffset, commitOffset); err != nil {
 		return nil, errors.Wrapf(err, "failed to rebuild index for segment file %s", ms.c.txnPath)
 	}
+
+	// Whatever follows the last valid entry has been discarded by the recovery (a torn or
+	// corrupted uncommitted tail). Clear it: otherwise intact records further on would be taken
+	// for valid entries by the next recovery, once a new entry has been written over the damaged one.
+	tail := ms.txnMappedFile[ms.currentFileOffset:]
+	end := len(tail)
+	for end > 0 && tail[end-1] == 0 {
+		end--
+	}
+	clear(tail[:end])
 	return ms, nil
 }
 
